@@ -22,6 +22,8 @@ type ConcCfg struct {
 	Sched    string `json:"sched"`    // "gate" (one at a time, deterministic) | "free" (goroutines)
 	MaxStep  int    `json:"max_step"` // gate: max backend calls per scheduling slice
 	Empty    bool   `json:"empty"`    // store is created empty by the seed (first-root race)
+	Die      bool   `json:"die"`      // sched "stall": the stalled transaction never resumes (dies holding its locks)
+	Budget   bool   `json:"budget"`   // record Commit durations against min(deadline, maxTime)
 }
 
 func genConc(r *rand.Rand, cc ConcCfg, id int, prefix string) Program {
@@ -70,6 +72,21 @@ func genConc(r *rand.Rand, cc ConcCfg, id int, prefix string) Program {
 				op := []string{"Add", "AddIfNotExist", "Upsert"}[r.Intn(3)]
 				t.Ops = append(t.Ops, OpSpec{Op: op, Store: 0, K: k, V: fmt.Sprintf("%s.%d", tag, i)})
 			}
+		case "contend":
+			// overlapping updates in opposite key orders
+			ks := []int{}
+			for k := 1; k <= cc.Keys && len(ks) < 3; k++ {
+				ks = append(ks, k)
+			}
+			if ti%2 == 1 {
+				for a, b := 0, len(ks)-1; a < b; a, b = a+1, b-1 {
+					ks[a], ks[b] = ks[b], ks[a]
+				}
+			}
+			for i, k := range ks {
+				t.Ops = append(t.Ops, OpSpec{Op: "Get", Store: 0, K: k})
+				t.Ops = append(t.Ops, OpSpec{Op: "Update", Store: 0, K: k, V: fmt.Sprintf("%s.%d", tag, i)})
+			}
 		default: // mixed
 			switch r.Intn(4) {
 			case 0: // read-only
@@ -115,7 +132,7 @@ func runConc(cfg Config) {
 		hub := decor.NewHub()
 		env := sopenv.New(folder, hub)
 		hub.Record = bf != nil && cc.Sched == "gate"
-		r := &Runner{Env: env, Rec: &Recorder{}, MaxTime: time.Duration(envInt("VERIF_MAXTIME_MS", 30000)) * time.Millisecond, NoReset: true, OpGate: cc.Sched == "gate", Deadline: true}
+		r := &Runner{Env: env, Rec: &Recorder{}, MaxTime: time.Duration(envInt("VERIF_MAXTIME_MS", 30000)) * time.Millisecond, NoReset: true, OpGate: cc.Sched == "gate", Deadline: true, Budget: cc.Budget}
 		if _, err := r.RunTxn(ctx, "t0", &p, p.Txns[0], nil); err != nil {
 			r.Rec.Add(Ev{Ev: "HarnessError", Note: errs(err)})
 		}
@@ -124,7 +141,7 @@ func runConc(cfg Config) {
 		labels := make([]string, n)
 		done := make([]chan struct{}, n)
 		var sched []string
-		if cc.Sched == "gate" {
+		if cc.Sched == "gate" || cc.Sched == "stall" {
 			for j := 0; j < n; j++ {
 				labels[j] = fmt.Sprintf("c%d", j+1)
 				hub.SetBreak(labels[j], 1)
@@ -143,6 +160,63 @@ func runConc(cfg Config) {
 				defer close(done[j])
 				r.RunTxn(ctx, labels[j], &p, p.Txns[j+1], nil)
 			}(j)
+		}
+		if cc.Sched == "stall" {
+			// everybody parks at its first backend call; one transaction advances to a call inside its commit and
+			// stalls there (holding whatever it holds); the others run freely to completion; then the stalled one
+			// continues - or never does (dies)
+			for j := 0; j < n; j++ {
+				select {
+				case <-hub.Notify:
+				case <-done[j]:
+				case <-time.After(30 * time.Second):
+				}
+			}
+			st := 0
+			k := hub.Count(labels[st]) + 4 + rnd.Intn(45)
+			sched = append(sched, fmt.Sprintf("stall %s@%d die=%v", labels[st], k, cc.Die))
+			hub.SetBreak(labels[st], k)
+			hub.Resume(labels[st])
+			stalled := false
+			select {
+			case <-hub.Notify:
+				stalled = true
+			case <-done[st]:
+			case <-time.After(60 * time.Second):
+			}
+			for j := 1; j < n; j++ {
+				hub.SetBreak(labels[j], 0)
+				hub.Resume(labels[j])
+			}
+			for j := 1; j < n; j++ {
+				select {
+				case <-done[j]:
+				case <-time.After(120 * time.Second):
+					r.Rec.Add(Ev{Ev: "HarnessError", Note: "transaction " + labels[j] + " never returned"})
+				}
+			}
+			if stalled && cc.Die {
+				r.Rec.Add(Ev{Ev: "Crash", T: labels[st], Note: "stalled forever"})
+				// its locks expire after maxTime
+				time.Sleep(r.MaxTime + 500*time.Millisecond)
+				wg.Done() // the dead goroutine is abandoned
+			} else if stalled {
+				hub.SetBreak(labels[st], 0)
+				hub.Resume(labels[st])
+				<-done[st]
+			}
+			// a follow-up writer must be able to commit
+			fu := TxnSpec{Mode: "w", Open: []int{0}, End: "commit", Ops: []OpSpec{{Op: "Upsert", Store: 0, K: 1, V: "follow"}, {Op: "Upsert", Store: 0, K: 2, V: "follow"}}}
+			r.Rec.Add(Ev{Ev: "Quiet"})
+			if _, err := r.RunTxn(ctx, "fu", &p, fu, nil); err != nil {
+				r.Rec.Add(Ev{Ev: "HarnessError", Note: errs(err)})
+			}
+			if stalled && cc.Die {
+				// do not wait for the abandoned goroutine below
+				r.Observe(ctx, &p)
+				tf.Write(fmt.Sprintf("h%d", i), r.Rec.Take(), map[string]any{"program": p, "sched": sched, "conc": cc})
+				continue
+			}
 		}
 		if cc.Sched == "gate" {
 			// all transactions run to their first backend call, then one at a time in slices
